@@ -645,7 +645,12 @@ def _c12_history(case, sf, hist):
         for op in case["ops"]:
             before = _dec(probe)
             cur_before = st.cur
-            hist.apply_op(api, st, op)
+            try:
+                hist.apply_op(api, st, op)
+            except Exception as ex:  # noqa
+                if op["op"] not in ("decode", "encode"):
+                    raise
+                st.problem("%s raised %s under the table last accepted" % (op["op"], type(ex).__name__))
             hist.observe(api, st)
             from . import oderiv
             hist.probe_unlisted(api, st, len(st.log) - 1, oderiv.derive, oread.read_smiles, oderiv.compare_with_output)
